@@ -663,6 +663,14 @@ func c08Scenarios(tier string, r *rand.Rand) []c08Scenario {
 		{Name: "stale-file-two-waiters", Class: "stale-prefile", Pre: c08PreFile{Kind: "meta", CreatedAge: c08ms(60000), UpdatedAge: c08ms(30000)},
 			Threads: []c08Thread{{Tid: 0, Name: n, StartAt: c08ms(200), HoldFor: c08ms(1000), CancelAt: long}, {Tid: 1, Pid: 1, Name: n, StartAt: c08ms(600), HoldFor: c08ms(200), CancelAt: long}},
 			Horizon: c08ms(4000)},
+		// a lock taken over from a dead holder (stale file removed) is a lock like any other: it is
+		// kept fresh over a long hold
+		{Name: "long-hold-after-stale-takeover", Class: "stale-prefile", Pre: c08PreFile{Kind: "meta", CreatedAge: c08ms(90000), UpdatedAge: c08ms(20000)},
+			Threads: []c08Thread{{Tid: 0, Name: n, StartAt: c08ms(200), HoldFor: c08ms(12500), CancelAt: long}, {Tid: 1, Pid: 1, Name: n, StartAt: c08ms(900), HoldFor: c08ms(200), CancelAt: long}},
+			Horizon: c08ms(15000)},
+		{Name: "long-hold-after-empty-takeover", Class: "empty-prefile", Pre: c08PreFile{Kind: "empty"},
+			Threads: []c08Thread{{Tid: 0, Name: n, StartAt: c08ms(200), HoldFor: c08ms(12500), CancelAt: long}, {Tid: 1, Name: n, StartAt: c08ms(3100), HoldFor: c08ms(200), CancelAt: long}},
+			Horizon: c08ms(16500)},
 		{Name: "empty-file-then-release", Class: "empty-prefile", Pre: c08PreFile{Kind: "empty"},
 			Threads: []c08Thread{{Tid: 0, Name: n, StartAt: c08ms(100), HoldFor: c08ms(1000), CancelAt: long}, {Tid: 1, Name: n, StartAt: c08ms(300), HoldFor: c08ms(100), CancelAt: long}},
 			Horizon: c08ms(5000)},
